@@ -483,7 +483,10 @@ class YAMLPath:
                     demarc_count += 1
                     continue
 
-            elif char == "(":
+            elif char == "(" and (
+                demarc_count == 0 or collector_level > 0
+                or (demarc_count == 1 and demarc_stack[-1] == "[")
+            ):
                 if (demarc_count == 1
                     and demarc_stack[-1] == "["
                     and segment_id
